@@ -9,6 +9,8 @@
 //! Exit codes: 0 held / 1 violation / 2 harness error.
 
 mod alloc;
+mod c09;
+mod c14;
 mod exec;
 mod gen;
 mod inspect;
@@ -19,6 +21,7 @@ mod program;
 mod props;
 mod rng;
 mod sched;
+mod seq;
 mod types;
 
 #[global_allocator]
@@ -87,7 +90,7 @@ pub fn install_crash_handler() {
         libc::sigaltstack(&ss, std::ptr::null_mut());
         for sig in [libc::SIGSEGV, libc::SIGBUS, libc::SIGABRT, libc::SIGILL, libc::SIGFPE] {
             let mut sa: libc::sigaction = std::mem::zeroed();
-            sa.sa_sigaction = crash_handler as usize;
+            sa.sa_sigaction = crash_handler as *const () as usize;
             sa.sa_flags = libc::SA_ONSTACK;
             libc::sigaction(sig, &sa, std::ptr::null_mut());
         }
